@@ -18,7 +18,7 @@ pub const RULE: &str = "cases = full cross product of reply frames from a gramma
 declared unit / declared struct / renamed-field variant / undeclared / each org.varlink.service \
 error / unknown service error / non-string; parameters: absent, null, {}, right shape, wrong \
 types, missing field, extra field, success-shaped, non-object; continues absent/true/false; \
-optional unknown member; every member order) x 5 parameter types x 3 error types, received through \
+optional unknown member; every member order; plus a sampled lane in which the same documents are re-spelled with \\uXXXX escapes in member names and string values and white space between tokens) x 5 parameter types x 3 error types, received through \
 receive_reply and call_method. Oracle = the rules of the statement with serde_json::from_slice of \
 the caller's types on the frame defining 'recognises'. Non-trivial = the frame has an `error` \
 member and Reply<P> would decode the frame with that member removed; distinct by (frame, P, E).";
@@ -283,10 +283,90 @@ pub fn check_frame(frame: &str, stats: &mut Stats) -> Vec<Fail> {
     fails
 }
 
+/// Re-spell a frame of the grammar without changing the JSON document it denotes: characters of
+/// member names and string values are written as `\uXXXX` escapes and white space is inserted
+/// between tokens, as directed by `choices` (cycled). The grammar's strings contain no escapes.
+pub fn respell(frame: &str, choices: &[u8]) -> String {
+    if choices.is_empty() {
+        return frame.to_string();
+    }
+    let mut out = String::with_capacity(frame.len() * 2);
+    let mut k = 0usize;
+    let mut next = || {
+        let c = choices[k % choices.len()];
+        k += 1;
+        c
+    };
+    let mut in_string = false;
+    for ch in frame.chars() {
+        if ch == '"' {
+            in_string = !in_string;
+            out.push(ch);
+            continue;
+        }
+        if in_string {
+            match next() % 8 {
+                7 => out.push_str(&format!("\\u{:04x}", ch as u32)),
+                6 if ch == '/' => out.push_str("\\/"),
+                _ => out.push(ch),
+            }
+        } else {
+            let ws = |c: u8| [" ", "\n", "\t", "\r", "  "][(c / 8) as usize % 5];
+            match ch {
+                '{' | '[' | ',' | ':' => {
+                    out.push(ch);
+                    let c = next();
+                    if c % 8 == 7 {
+                        out.push_str(ws(c));
+                    }
+                }
+                '}' | ']' => {
+                    let c = next();
+                    if c % 8 == 7 {
+                        out.push_str(ws(c));
+                    }
+                    out.push(ch);
+                }
+                _ => out.push(ch),
+            }
+        }
+    }
+    out
+}
+
 pub fn run(ctx: &Ctx) -> i32 {
     let frames = all_frames();
     let n = frames.len() as u64;
-    let (stats, viol) = par_enumerate(ctx, "grammar", n, |i, stats| {
+    // Lexical lane: the same documents spelled with escapes in member names / string values and
+    // with white space between tokens.
+    let (shards, cases) = ctx.tier.pick((8, 3000), (64, 40_000));
+    let frames_ref = &frames;
+    let (lex_stats, lex_viol) = vcommon::drv::run_shards(
+        ctx,
+        "respelled",
+        shards,
+        cases,
+        || {
+            use proptest::prelude::*;
+            (any::<u32>(), prop::collection::vec(any::<u8>(), 1..24))
+        },
+        |(fi, choices), stats| {
+            let idx = ((*fi as u64 * frames_ref.len() as u64) >> 32) as usize;
+            let frame = respell(&frames_ref[idx], choices);
+            if frame.contains("\\u") {
+                stats.class("respelled:has-unicode-escape");
+            }
+            if frame.contains("\\u") && frame.contains("error") == false && frames_ref[idx].contains("\"error\"") {
+                stats.class("respelled:escaped-error-key");
+            }
+            stats.sample(|| json!({"frame": frame}));
+            match check_frame(&frame, stats).into_iter().next() {
+                Some(f) => Err(f),
+                None => Ok(()),
+            }
+        },
+    );
+    let (mut stats, mut viol) = par_enumerate(ctx, "grammar", n, |i, stats| {
         let frame = &frames[i as usize];
         if i % 9973 == 1 {
             stats.sample(|| json!({"frame": frame}));
@@ -296,6 +376,8 @@ pub fn run(ctx: &Ctx) -> i32 {
             .map(|f| (f, json!({"frame": frame})))
             .collect()
     });
+    stats.merge(lex_stats);
+    viol.extend(lex_viol);
     Report::new(RULE)
         .exhaustive(true)
         .assume("'the caller's error type recognises the frame' is defined as serde_json::from_slice::<E>(frame) succeeding")
@@ -303,8 +385,19 @@ pub fn run(ctx: &Ctx) -> i32 {
         .finish(ctx, &stats, &viol, &[])
 }
 
-pub fn replay(_lane: &str, case: Value) -> CaseResult {
-    let frame = case["frame"].as_str().ok_or_else(|| Fail::new("bad-replay", "no frame"))?;
+pub fn replay(lane: &str, case: Value) -> CaseResult {
+    let respelled;
+    let frame = if lane == "respelled" {
+        let frames = all_frames();
+        let fi = case[0].as_u64().ok_or_else(|| Fail::new("bad-replay", "no frame index"))?;
+        let choices: Vec<u8> = serde_json::from_value(case[1].clone()).map_err(|e| Fail::new("bad-replay", e.to_string()))?;
+        let idx = ((fi * frames.len() as u64) >> 32) as usize;
+        respelled = respell(&frames[idx], &choices);
+        println!("frame: {respelled}");
+        respelled.as_str()
+    } else {
+        case["frame"].as_str().ok_or_else(|| Fail::new("bad-replay", "no frame"))?
+    };
     let mut stats = Stats::default();
     let fails = check_frame(frame, &mut stats);
     for f in &fails {
